@@ -36,15 +36,17 @@ case "$ID" in
 esac
 timeout_s=1500; [ "$TIER" = thorough ] && timeout_s=5400
 
-cp -f /repo/go.sum "$H/go.sum.repo" 2>/dev/null
-# go.sum = committed harness sums + repo sums (both offline)
-cat "$H/go.sum.base" "$H/go.sum.repo" 2>/dev/null | sort -u > "$H/go.sum"
-rm -f "$H/go.sum.repo"
+REPO=${VERIF_REPO:-/repo}
+# a private go.mod/go.sum pair (replace => $REPO) so nothing is written into the harness
+# at check time and scratch copies of the repository can be checked (VERIF_REPO=<dir>)
+sed "s#=> /repo#=> $REPO#" "$H/go.mod" > "$OUT/go.mod"
+cat "$H/go.sum.base" "$REPO/go.sum" 2>/dev/null | sort -u > "$OUT/go.sum"
+if [ "$REPO" != /repo ]; then export VERIF_EVIDENCE=${VERIF_EVIDENCE:-$OUT/evidence.json}; fi
 
 overlay=()
 if [ "$pkg" = snapfs ]; then
   # generated file-operation overlay for serf/snapshot.go (DESIGN 3.6)
-  if ! (cd /verif/tools/fsshim && go run . -repo /repo -out "$OUT/overlay") >"$OUT/fsshim.log" 2>&1; then
+  if ! (cd /verif/tools/fsshim && go run . -repo "$REPO" -out "$OUT/overlay") >"$OUT/fsshim.log" 2>&1; then
     cat "$OUT/fsshim.log"
     echo "INCONCLUSIVE property=$ID reason=fsshim could not rewrite snapshot.go"
     exit 3
@@ -56,7 +58,7 @@ run_phase() { # $1 = phase name, $2.. = extra go test flags
   local phase=$1; shift
   export VERIF_PHASE=$phase VERIF_RESULT=$OUT/result.$phase VERIF_PHASE_FILE=$OUT/phase.race.json
   export GORACE="halt_on_error=0 log_path=$OUT/race.$phase"
-  (cd "$H" && timeout -s QUIT $((timeout_s+60)) go test -tags verif "${overlay[@]}" "$@" -count=1 -timeout ${timeout_s}s \
+  (cd "$H" && timeout -s QUIT $((timeout_s+60)) go test -modfile="$OUT/go.mod" -tags verif "${overlay[@]}" "$@" -count=1 -timeout ${timeout_s}s \
       -run "^Test${ID}\$" ./$pkg/ ) >"$OUT/log.$phase" 2>&1
   local rc=$?
   echo $rc > "$OUT/rc.$phase"
@@ -80,7 +82,7 @@ for ph in "${phases[@]}"; do
   # race reports (attributed only when a serf frame is involved)
   if ls "$OUT"/race.$ph.* >/dev/null 2>&1; then
     mkdir -p /verif/replays/$ID
-    python3 /verif/tools/racesum.py "$ID" "/verif/replays/$ID/race-$VERIF_SEED-$TIER-$ph.txt" "$OUT"/race.$ph.* > "$OUT/racesum.$ph"
+    VERIF_REPO=$REPO python3 /verif/tools/racesum.py "$ID" "/verif/replays/$ID/race-$VERIF_SEED-$TIER-$ph.txt" "$OUT"/race.$ph.* > "$OUT/racesum.$ph"
     cat "$OUT/racesum.$ph"
     grep -q '^VIOLATION ' "$OUT/racesum.$ph" && viol=1
     grep -q '^INCONCLUSIVE ' "$OUT/racesum.$ph" && inconc=1
